@@ -28,6 +28,7 @@ func genConcOp(t *rapid.T, nkeys int, futurePct int) WOp {
 func genConcCase(t *rapid.T, futurePct, faultPct int, maxClients int) *ConcCase {
 	c := &ConcCase{Engine: EnvStr("VERIF_ENGINE", EngMem)}
 	c.Free = EnvStr("VERIF_FREE", "") == "1"
+	c.API = EnvStr("VERIF_API", "")
 	if c.Engine != EngMem && !c.Free {
 		c.PreCommit = DrawBool(t, 50, "precommit")
 	}
